@@ -289,7 +289,7 @@ func ParsePipe(match string) ([]*PipeSelector, error) {
 func ParseSelector(selector string) ([]any, error) {
 	functions := strings.SplitN(selector, "=>", 2)
 	slice := make([]any, 0)
-	if len(functions) == 2 {
+	if len(functions) == 2 && isFunctionName(functions[0]) {
 		selector = functions[1]
 		slice = append(slice, TopLevelFunctionSelector(functions[0]))
 	}
@@ -322,6 +322,20 @@ func ParseSelector(selector string) ([]any, error) {
 		}
 	}
 	return slice, nil
+}
+
+// isFunctionName tells a top level function prefix (`mix=>...`) from an arrow that
+// belongs to a later step of the selector (`data[keep=>0:1]`)
+func isFunctionName(name string) bool {
+	if len(name) == 0 {
+		return false
+	}
+	for _, char := range name {
+		if !(char == '_' || char >= 'a' && char <= 'z' || char >= 'A' && char <= 'Z' || char >= '0' && char <= '9') {
+			return false
+		}
+	}
+	return true
 }
 
 func SelectDimension(data any, dimensions []*IndexSelector) (any, error) {
